@@ -458,9 +458,9 @@ func c16CoordBounds(c *fw.Ctx, idx int) {
 
 func init() {
 	fw.Register(&fw.Monitor{
-		ID:    "C16",
-		Title: "Clone returns an equal geometry that shares no storage",
-		Rule: "Point/LineString/LinearRing/Polygon/MultiPoint/MultiLineString/MultiPolygon in all layouts, built with exact, spare-capacity (flat, ends and every endss row; Reserve) and empty-non-nil storage; clone and clone-of-clone compared by deep bitwise snapshots; mutation histories of 1..20 steps (write every FlatCoords()[i] and the spare capacity, bump every end offset, Push, Reverse, SetCoords, TransformInPlace, Swap, SetSRID, Reserve) applied to any of the three, the other two must keep their snapshot after every step; Coord and Bounds clones with Set/Extend/Set/SetCoords. distinct_nontrivial = distinct (type, layout, storage class, empty) combinations",
+		ID:     "C16",
+		Title:  "Clone returns an equal geometry that shares no storage",
+		Rule:   "Point/LineString/LinearRing/Polygon/MultiPoint/MultiLineString/MultiPolygon in all layouts, built with exact, spare-capacity (flat, ends and every endss row; Reserve) and empty-non-nil storage; clone and clone-of-clone compared by deep bitwise snapshots; mutation histories of 1..20 steps (write every FlatCoords()[i] and the spare capacity, bump every end offset, Push, Reverse, SetCoords, TransformInPlace, Swap, SetSRID, Reserve) applied to any of the three, the other two must keep their snapshot after every step; Coord and Bounds clones with Set/Extend/Set/SetCoords. distinct_nontrivial = distinct (type, layout, storage class, empty) combinations",
 		Assume: []string{"snapshots compare length and bits, never DeepEqual"},
 		Classes: []fw.Class{
 			{Name: "geometries", Quick: 40000, Thorough: 2000000, Run: c16Geoms},
